@@ -246,7 +246,8 @@ def precedence(ctx):
 
 # ---------------------------------------------------------------------------------------
 BAD = {
-    "search": [["search: maybe"], ["search: 1"], ["search: true", "    false"]],
+    "search": [["search: maybe"], ["search: 1"], ["search: true", "    false"], ["search: tru"], ["search: fals"], ["search: e"], ["search: truefalse"],
+               ["search: t"], ["search: yes"]],
     "graph_maxdepth": [["graph_maxdepth: abc"], ["graph_maxdepth: 3x"], ["graph_maxdepth: 1.5"]],
     "alias": [["alias: no_separator_here"]],
 }
@@ -284,7 +285,8 @@ def illtyped(ctx):
             continue
 
         def h(E, key=key):
-            v = CV.choice(E, "bad", BAD[key]) if len(BAD[key]) > 1 else BAD[key][0]
+            # one path per value: the conversion helpers see plain strings (membership tests on proxies are not exact)
+            v = CV.choice(E, "bad", BAD[key]).concretize() if len(BAD[key]) > 1 else BAD[key][0]
             h.v = v
             try:
                 _from_md(v)
@@ -300,7 +302,8 @@ def illtyped(ctx):
             E = sym.Engine(ctx, max_paths=500, incremental=True)
             found = E.explore(h)
             for (label, m, pc), A in list(zip(found, E.autosnaps))[:1]:
-                ctx.report(label, {"key": key, "md": list(choice.value_in_model(m, A["v"]))}, replay_reject)
+                vv = A["v"]
+                ctx.report(label, {"key": key, "md": list(choice.value_in_model(m, vv) if isinstance(vv, CV) else vv)}, replay_reject)
             if E.reached.get("rejected") or found:
                 done += 1
     if done == len(BAD):
